@@ -25,9 +25,21 @@ class Core:
         self.rng = rng
         self.funcs = []          # (name, nparams)
         self.counter = 0
+        self.short = rng.random() < 0.3
+        self.taken = set()
+
+    SHORT = [c for c in 'ABCDEFGHIJKLMNOPQRSTUVWXYZ'] + ['AA', 'AB', 'AC', 'AD', 'a', 'b', 'c', 'd']
 
     def fresh(self, p):
+        """a new name; in short-name mode globals and locals are spelled like the names the renamer hands out, so that a
+        renaming has to work around them (function names and parameters keep their prefix: call sites depend on them)"""
         self.counter += 1
+        if self.short and p in ('g', 'l', 'm') and self.rng.random() < 0.7:
+            pool = [n for n in self.SHORT if n not in self.taken]
+            if pool:
+                n = self.rng.choice(pool[:6])
+                self.taken.add(n)
+                return n
         return '%s%d' % (p, self.counter)
 
     def int_expr(self, env, d=0):
@@ -228,6 +240,8 @@ class Core:
         lines = ['def %s(%s):' % (name, ', '.join(params))]
         gl = [g for g, t in genv.items() if t == 'int' and r.random() < 0.4]
         body = []
+        if r.random() < 0.2:
+            body.append(r.choice(['"""Docstring of %s."""' % name, "'first'", "'first'\n    'second'"]))
         if gl:
             body.append('global ' + ', '.join(gl))
             for g in gl:
